@@ -18,6 +18,7 @@ func (c *FnCtx) mlenFn(keySort string) string {
 			fmt.Sprintf("(assert (= (%s ((as const %s) false)) 0))", fn, set),
 			fmt.Sprintf("(assert (forall ((d %s) (k %s)) (! (=> (select d k) (> (%s d) 0)) :pattern ((%s d) (select d k)))))", set, keySort, fn, fn),
 			fmt.Sprintf("(assert (forall ((d %s) (k %s)) (! (= (%s (store d k true)) (+ (%s d) (ite (select d k) 0 1))) :pattern ((%s (store d k true))))))", set, keySort, fn, fn, fn),
+			fmt.Sprintf("(assert (forall ((d1 %s) (d2 %s)) (! (=> (and (= (%s d1) (%s d2)) (forall ((k %s)) (=> (select d1 k) (select d2 k)))) (= d1 d2)) :pattern ((%s d1) (%s d2)))))", set, set, fn, fn, keySort, fn, fn),
 			fmt.Sprintf("(assert (forall ((d %s) (k %s)) (! (= (%s (store d k false)) (- (%s d) (ite (select d k) 1 0))) :pattern ((%s (store d k false))))))", set, keySort, fn, fn, fn),
 		)
 	}
@@ -140,30 +141,32 @@ func (c *FnCtx) evalBuiltin(x *ast.CallExpr, name string, st *State) []string {
 	return nil
 }
 
-// evalAppend models append with Go's aliasing semantics: in place when capacity allows, fresh array otherwise.
+// evalAppend models append with Go's aliasing semantics: in place when capacity allows (visible to every
+// alias of the backing array), a fresh array otherwise. The new element heap is a fresh array constrained by
+// frame and content facts, which keeps the terms small.
 func (c *FnCtx) evalAppend(x *ast.CallExpr, st *State) string {
 	st0 := c.typeOf(x.Args[0])
 	sl, ok := st0.Underlying().(*types.Slice)
 	if !ok {
 		c.fail(x.Pos(), "append to %s", st0)
 	}
-	et := sl.Elem()
-	es := c.tt.sortOf(et)
-	s := c.name(st, "aps", c.convertTo(c.eval(x.Args[0], st), st0, st0, st), sSlice)
-	if s == nilPlaceholder {
-		s = "nilSlice"
-	}
-	an, asrt := c.elemsArr(et)
-	rowSort := "(Array Int " + es + ")"
 	if c.specMode > 0 {
 		c.fail(x.Pos(), "append in specification")
 	}
+	et := sl.Elem()
+	es := c.tt.sortOf(et)
+	s0 := c.eval(x.Args[0], st)
+	if s0 == nilPlaceholder {
+		s0 = "nilSlice"
+	}
+	s := c.name(st, "aps", s0, sSlice)
+	an, asrt := c.elemsArr(et)
+	rowSort := "(Array Int " + es + ")"
+	var tlen string
+	var tget func(i string) string
+	noop := "false"
 	if x.Ellipsis.IsValid() {
-		// append(s, t...)
 		tt := c.typeOf(x.Args[1])
-		var t string
-		var tlen string
-		var tget func(i string) string
 		if b, ok := tt.Underlying().(*types.Basic); ok && b.Info()&types.IsString != 0 {
 			str := c.eval(x.Args[1], st)
 			c.blenFacts(st, str)
@@ -171,76 +174,67 @@ func (c *FnCtx) evalAppend(x *ast.CallExpr, st *State) string {
 			tlen = "(blen " + str + ")"
 			tget = func(i string) string { return "(byteAt " + str + " " + i + ")" }
 		} else {
-			t = c.name(st, "apt", c.eval(x.Args[1], st), sSlice)
+			t := c.eval(x.Args[1], st)
 			if t == nilPlaceholder {
 				t = "nilSlice"
 			}
+			t = c.name(st, "apt", t, sSlice)
 			tlen = "(slen " + t + ")"
-			trow := c.name(st, "aptrow", sel(c.h(st, an, asrt), "(sbase "+t+")"), rowSort)
+			trow := c.fresh("aptrow", rowSort)
+			st.addDef(eq(trow, sel(c.h(st, an, asrt), "(sbase "+t+")")))
 			tget = func(i string) string { return sel(trow, "(+ (soff "+t+") "+i+")") }
 		}
-		E := c.h(st, an, asrt)
-		oldRow := c.name(st, "aprow", sel(E, "(sbase "+s+")"), rowSort)
-		newLen := c.name(st, "aplen", "(+ (slen "+s+") "+tlen+")", sInt)
-		fits := c.name(st, "apfits", and("(<= "+newLen+" (scap "+s+"))", not(eq("(sbase "+s+")", "0"))), sBool)
-		// in-place row
-		rowA := c.fresh("rowA", rowSort)
-		lo := "(+ (soff " + s + ") (slen " + s + "))"
-		st.addDef(fmt.Sprintf("(forall ((j Int)) (! (= (select %s j) (ite (and (<= %s j) (< j (+ %s %s))) %s (select %s j))) :pattern ((select %s j))))",
-			rowA, lo, lo, tlen, tget("(- j "+lo+")"), oldRow, rowA))
-		// fresh row
-		nb := c.fresh("new_arr", sInt)
-		al := c.alloc(st)
-		st.addDef(and("(> "+nb+" 0)", not(sel(al, nb))))
-		rowB := c.fresh("rowB", rowSort)
-		st.addDef(fmt.Sprintf("(forall ((j Int)) (! (=> (and (<= 0 j) (< j (slen %s))) (= (select %s j) (select %s (+ (soff %s) j)))) :pattern ((select %s j))))", s, rowB, oldRow, s, rowB))
-		st.addDef(fmt.Sprintf("(forall ((j Int)) (! (=> (and (<= (slen %s) j) (< j %s)) (= (select %s j) %s)) :pattern ((select %s j))))", s, newLen, rowB, tget("(- j (slen "+s+"))"), rowB))
-		ncap := c.fresh("ncap", sInt)
-		st.addDef("(>= " + ncap + " " + newLen + ")")
-		// Go: appending zero elements to a slice returns the slice itself (even nil)
-		noop := eq(tlen, "0")
-		resA := "(mkSlice (sbase " + s + ") (soff " + s + ") " + newLen + " (scap " + s + "))"
-		resB := "(mkSlice " + nb + " 0 " + newLen + " " + ncap + ")"
-		c.frameCheckAppend(st, s, fits, noop, x)
-		c.setH(st, "alloc", "(Array Int Bool)", ite(or(fits, noop), al, store(al, nb, "true")))
-		c.setH(st, an, asrt, ite(noop, E, ite(fits, store(E, "(sbase "+s+")", rowA), store(E, nb, rowB))))
-		return c.name(st, "apres", ite(noop, s, ite(fits, resA, resB)), sSlice)
-	}
-	var vals []string
-	for _, a := range x.Args[1:] {
-		vals = append(vals, c.convertTo(c.eval(a, st), c.typeOf(a), et, st))
-	}
-	n := len(vals)
-	if n == 0 {
-		return s
+		noop = eq(tlen, "0")
+	} else {
+		var vals []string
+		for _, a := range x.Args[1:] {
+			vals = append(vals, c.name(st, "apv", c.convertTo(c.eval(a, st), c.typeOf(a), et, st), es))
+		}
+		if len(vals) == 0 {
+			return s
+		}
+		tlen = fmt.Sprint(len(vals))
+		tget = func(i string) string {
+			t := vals[len(vals)-1]
+			for k := len(vals) - 2; k >= 0; k-- {
+				t = ite(eq(i, fmt.Sprint(k)), vals[k], t)
+			}
+			return t
+		}
 	}
 	E := c.h(st, an, asrt)
-	oldRow := c.name(st, "aprow", sel(E, "(sbase "+s+")"), rowSort)
-	newLen := c.name(st, "aplen", fmt.Sprintf("(+ (slen %s) %d)", s, n), sInt)
-	fits := c.name(st, "apfits", and("(<= "+newLen+" (scap "+s+"))", not(eq("(sbase "+s+")", "0"))), sBool)
-	rowA := oldRow
-	for i, v := range vals {
-		rowA = store(rowA, fmt.Sprintf("(+ (soff %s) (slen %s) %d)", s, s, i), v)
-	}
+	oldRow := c.fresh("aprow", rowSort)
+	st.addDef(eq(oldRow, sel(E, "(sbase "+s+")")))
+	newLen := c.fresh("aplen", sInt)
+	st.addDef(eq(newLen, "(+ (slen "+s+") "+tlen+")"))
+	fits := c.fresh("apfits", sBool)
+	st.addDef(eq(fits, and("(<= "+newLen+" (scap "+s+"))", not(eq("(sbase "+s+")", "0")))))
 	nb := c.fresh("new_arr", sInt)
 	al := c.alloc(st)
 	st.addDef(and("(> "+nb+" 0)", not(sel(al, nb))))
-	rowB0 := c.fresh("rowB", rowSort)
-	st.addDef(fmt.Sprintf("(forall ((j Int)) (! (=> (and (<= 0 j) (< j (slen %s))) (= (select %s j) (select %s (+ (soff %s) j)))) :pattern ((select %s j))))", s, rowB0, oldRow, s, rowB0))
-	// backward direction: every old element has its image
-	st.addDef(fmt.Sprintf("(forall ((j Int)) (! (=> (and (<= (soff %s) j) (< j (+ (soff %s) (slen %s)))) (= (select %s (- j (soff %s))) (select %s j))) :pattern ((select %s j))))", s, s, s, rowB0, s, oldRow, oldRow))
-	rowB := rowB0
-	for i, v := range vals {
-		rowB = store(rowB, fmt.Sprintf("(+ (slen %s) %d)", s, i), v)
-	}
 	ncap := c.fresh("ncap", sInt)
 	st.addDef("(>= " + ncap + " " + newLen + ")")
 	resA := "(mkSlice (sbase " + s + ") (soff " + s + ") " + newLen + " (scap " + s + "))"
 	resB := "(mkSlice " + nb + " 0 " + newLen + " " + ncap + ")"
-	c.frameCheckAppend(st, s, fits, "false", x)
-	c.setH(st, "alloc", "(Array Int Bool)", ite(fits, al, store(al, nb, "true")))
-	c.setH(st, an, asrt, ite(fits, store(E, "(sbase "+s+")", rowA), store(E, nb, rowB)))
-	return c.name(st, "apres", ite(fits, resA, resB), sSlice)
+	res := c.fresh("apres", sSlice)
+	st.addDef(eq(res, ite(noop, s, ite(fits, resA, resB))))
+	c.frameCheckAppend(st, s, fits, noop, x)
+	E2 := c.fresh("E_ap", asrt)
+	resRow := c.fresh("aprr", rowSort)
+	lo := "(+ (soff " + s + ") (slen " + s + "))"
+	st.addDef(fmt.Sprintf("(forall ((b Int)) (! (=> (not (= b (sbase %s))) (= (select %s b) (select %s b))) :pattern ((select %s b))))", res, E2, E, E2))
+	st.addDef(implies(noop, eq(E2, E)))
+	st.addDef(eq(resRow, sel(E2, "(sbase "+res+")")))
+	st.addDef(fmt.Sprintf("(forall ((i Int)) (! (=> (and (<= (soff %s) i) (< i (+ (soff %s) (slen %s)))) (= (select %s i) (select %s (+ (soff %s) (- i (soff %s)))))) :pattern ((select %s i))))",
+		res, res, s, resRow, oldRow, s, res, resRow))
+	st.addDef(fmt.Sprintf("(forall ((i Int)) (! (=> (and (<= (+ (soff %s) (slen %s)) i) (< i (+ (soff %s) %s))) (= (select %s i) %s)) :pattern ((select %s i))))",
+		res, s, res, newLen, resRow, tget("(- i (+ (soff "+res+") (slen "+s+")))"), resRow))
+	st.addDef(implies(and(fits, not(noop)), fmt.Sprintf("(forall ((i Int)) (! (=> (or (< i %s) (>= i (+ %s %s))) (= (select %s i) (select %s i))) :pattern ((select %s i))))", lo, lo, tlen, resRow, oldRow, resRow)))
+	st.addDef(eq("(slen "+res+")", newLen))
+	c.setH(st, "alloc", "(Array Int Bool)", ite(or(fits, noop), al, store(al, nb, "true")))
+	c.setH(st, an, asrt, E2)
+	st.addDef(c.typeInv(st, res, st0, 0))
+	return res
 }
 
 // frameCheckAppend: an in-place append writes into the backing array beyond len; that is a frame
@@ -481,6 +475,9 @@ func (c *FnCtx) evalSpecBuiltin(x *ast.CallExpr, fobj *types.Func, st *State) st
 	case "V_sameslice":
 		a, b := c.eval(x.Args[0], st), c.eval(x.Args[1], st)
 		return and(eq("(sbase "+a+")", "(sbase "+b+")"), eq("(soff "+a+")", "(soff "+b+")"), eq("(slen "+a+")", "(slen "+b+")"))
+	case "V_sliceprefix":
+		a, b := c.eval(x.Args[0], st), c.eval(x.Args[1], st)
+		return and(eq("(sbase "+a+")", "(sbase "+b+")"), eq("(soff "+a+")", "(soff "+b+")"), "(<= (slen "+a+") (slen "+b+"))")
 	case "V_isnil":
 		return c.isNil(c.eval(x.Args[0], st), c.typeOf(x.Args[0]))
 	case "V_dyn":
